@@ -11,6 +11,7 @@ mod chan;
 mod common;
 mod drive;
 mod lin;
+mod seq;
 mod props;
 
 use common::{Acc, Args};
@@ -57,6 +58,8 @@ fn main() {
         "C02" => props::c02::run(&args, &mut acc),
         "C03" => props::c03::run(&args, &mut acc),
         "C04" => props::c04::run(&args, &mut acc),
+        "C16" => props::c16::run(&args, &mut acc),
+        "C20" => props::c20::run(&args, &mut acc),
         p => { eprintln!("unknown property {p}"); std::process::exit(2) }
     }
     let out = acc.to_json(&args);
